@@ -78,7 +78,10 @@ func WriteFileAt(dir *os.File, filename string, data []byte, perm os.FileMode) e
 	if oerr != nil {
 		return oerr
 	}
+	verifKillPoint(1, filename)
 	_, werr := unix.Write(fd, data)
+	verifKillPoint(2, filename)
 	unix.Close(fd)
+	verifKillPoint(3, filename)
 	return werr
 }
